@@ -549,7 +549,7 @@ func c23Exec(c c23Case) (sig, msg string, st c23Stats) {
 			actual, _ := storages[i].Read(0, uint64(len(model[i])))
 			st.changedAtPanic = st.changedAtPanic || !bytes.Equal(actual, model[i])
 		}
-		return psig, pmsg, st
+		return normSig(psig), pmsg, st
 	}
 
 	// ---------------- judge
